@@ -5,6 +5,7 @@ import OlVerif.Unparse.WFB
 import OlVerif.Lower.Stmt
 import OlVerif.Lower.Reject
 import OlVerif.Order.Trace
+import OlVerif.Lower.Binders
 import OlVerif.Api.Model
 import OlVerif.Ctrl.Run
 
@@ -96,7 +97,9 @@ def opLower (j : Json) : Json :=
     -- `tr_t` / `tr_f`: the probes the output evaluates, in order, under the all-true / all-false oracle (M-ORDER)
     | .ok e => pure (Json.mkObj [("ok", exprToJson e), ("bad", .bool (badModule body)), ("wf", .bool (wfEB e)),
         ("tr_t", .arr ((tr (fun _ => true) e).map fun (k : Nat) => Json.num (JsonNumber.fromNat k)).toArray),
-        ("tr_f", .arr ((tr (fun _ => false) e).map fun (k : Nat) => Json.num (JsonNumber.fromNat k)).toArray)])
+        ("tr_f", .arr ((tr (fun _ => false) e).map fun (k : Nat) => Json.num (JsonNumber.fromNat k)).toArray),
+        -- `bnd`: the names the output binds (C09.no_foreign_binders speaks about this list)
+        ("bnd", .arr ((bnd e).eraseDups.map Json.str).toArray)])
     | .error err => pure (Json.mkObj [("err", .str err.cls), ("bad", .bool (badModule body))])
   match r with
   | .ok j => j
